@@ -505,6 +505,305 @@ fn run(batches: &str, root: &str, entries: u32, flagbits: u32, out: &mut Out) {
     drop(ring);
 }
 
+
+// ------------------------------------------------------------------------------------------------
+// socket scripts (generated from specs/UringSock.tla): connect / accept / sendmsg / recvmsg
+// ------------------------------------------------------------------------------------------------
+struct SockWorld {
+    path: String,
+    listener: i32,
+    client: [i32; 3],          // index 1..2
+    server_side: [i32; 3],     // accepted descriptor per client
+    pending: std::collections::VecDeque<usize>,
+    file: i32,                 // the descriptor that is passed around
+    file_ino: u64,
+}
+
+fn ino_of(fd: i32) -> u64 {
+    let mut st: libc::stat = unsafe { std::mem::zeroed() };
+    if unsafe { libc::fstat(fd, &mut st) } == 0 {
+        st.st_ino
+    } else {
+        0
+    }
+}
+
+impl SockWorld {
+    fn new(root: &str, name: &str, run: u64) -> SockWorld {
+        let dir = format!("{root}/{name}");
+        std::fs::create_dir_all(&dir).unwrap();
+        let path = format!("{dir}/s{run}");
+        let _ = std::fs::remove_file(&path);
+        std::fs::write(format!("{dir}/passed.txt"), b"passed around").unwrap();
+        unsafe {
+            let listener = libc::socket(libc::AF_UNIX, libc::SOCK_STREAM | libc::SOCK_CLOEXEC, 0);
+            let mut sa: libc::sockaddr_un = std::mem::zeroed();
+            sa.sun_family = libc::AF_UNIX as u16;
+            for (i, b) in path.bytes().enumerate() {
+                sa.sun_path[i] = b as libc::c_char;
+            }
+            let len = (2 + path.len() + 1) as u32;
+            assert_eq!(0, libc::bind(listener, std::ptr::addr_of!(sa).cast(), len));
+            assert_eq!(0, libc::listen(listener, 8));
+            let c1 = libc::socket(libc::AF_UNIX, libc::SOCK_STREAM | libc::SOCK_CLOEXEC, 0);
+            let c2 = libc::socket(libc::AF_UNIX, libc::SOCK_STREAM | libc::SOCK_CLOEXEC, 0);
+            let file = libc::open(cstr(&format!("{dir}/passed.txt")).as_ptr(), libc::O_RDONLY | libc::O_CLOEXEC);
+            SockWorld { path, listener, client: [-1, c1, c2], server_side: [-1; 3], pending: Default::default(), file, file_ino: ino_of(file) }
+        }
+    }
+    fn close_all(&mut self) {
+        unsafe {
+            for fd in [self.listener, self.client[1], self.client[2], self.server_side[1], self.server_side[2], self.file] {
+                if fd >= 0 {
+                    libc::close(fd);
+                }
+            }
+        }
+        let _ = std::fs::remove_file(&self.path);
+    }
+    /// control buffer after a recvmsg -> (number of descriptors received, all refer to the passed file); closes them
+    fn received_fds(&self, ctrl: &[u8], controllen: usize) -> (usize, bool) {
+        let mut n = 0;
+        let mut same = true;
+        let mut off = 0usize;
+        while off + 16 <= controllen.min(ctrl.len()) {
+            let len = usize::from_ne_bytes(ctrl[off..off + 8].try_into().unwrap());
+            let level = i32::from_ne_bytes(ctrl[off + 8..off + 12].try_into().unwrap());
+            let ty = i32::from_ne_bytes(ctrl[off + 12..off + 16].try_into().unwrap());
+            if len < 16 || off + len > ctrl.len() {
+                break;
+            }
+            if level == libc::SOL_SOCKET && ty == libc::SCM_RIGHTS {
+                let mut p = off + 16;
+                while p + 4 <= off + len {
+                    let fd = i32::from_ne_bytes(ctrl[p..p + 4].try_into().unwrap());
+                    n += 1;
+                    same = same && ino_of(fd) == self.file_ino;
+                    unsafe { libc::close(fd) };
+                    p += 4;
+                }
+            }
+            off += (len + 7) & !7;
+        }
+        (n, same)
+    }
+}
+
+const SDATA: &[u8] = b"Ping!";
+
+/// one step through the wrapper: -> (completions, payload)
+fn sock_ring(ring: &mut IoUring, w: &mut SockWorld, step: &Value, u: u64) -> (Vec<Value>, Value, bool, i64, i64, Option<String>) {
+    let kind = step[0].as_str().unwrap();
+    let c = step[1].as_u64().unwrap_or(0) as usize;
+    let n = step[2].as_u64().unwrap_or(0) as usize;
+    let fl = IoUringSQEFlags::empty();
+    // everything an entry points to lives until the end of this function (after the completion)
+    let upath = rusl::string::unix_str::UnixString::try_from_str(&w.path).unwrap();
+    let arg = rusl::platform::SocketAddressUnix::try_from_unix(&upath).unwrap();
+    let mut peer = [0u8; 112];
+    let mut peer_len: u64 = 110;
+    let data = &SDATA[..n.min(SDATA.len()).max(if kind == "sendfd" { 1 } else { 0 })];
+    let ios = [rusl::platform::IoSlice::new(data)];
+    let fds = [Fd::try_new(w.file).unwrap()];
+    let guard = rusl::platform::MsgHdrBorrow::create_send(None, &ios, if kind == "sendfd" { Some(rusl::platform::ControlMessageSend::ScmRights(&fds)) } else { None });
+    let mut rbuf = [0u8; 32];
+    let mut ctrl = [0u8; 64];
+    let rlen = n.min(32);
+    let mut riov = [libc::iovec { iov_base: rbuf.as_mut_ptr().cast(), iov_len: rlen }];
+    let mut rhdr: libc::msghdr = unsafe { std::mem::zeroed() };
+    rhdr.msg_iov = riov.as_mut_ptr();
+    rhdr.msg_iovlen = 1;
+    rhdr.msg_control = ctrl.as_mut_ptr().cast();
+    rhdr.msg_controllen = ctrl.len();
+    let sqe = unsafe {
+        match kind {
+            "connect" => IoUringSubmissionQueueEntry::new_connect_unix(Fd::try_new(w.client[c]).unwrap(), &arg, u, fl),
+            "accept" => IoUringSubmissionQueueEntry::new_accept_unix(Fd::try_new(w.listener).unwrap(), peer.as_mut_ptr().cast(), &mut peer_len, SocketFlags::SOCK_CLOEXEC, u, fl),
+            "send" | "sendfd" => IoUringSubmissionQueueEntry::new_sendmsg(Fd::try_new(w.client[c]).unwrap(), &guard, 0, u, fl),
+            "recv" => IoUringSubmissionQueueEntry::new_recvmsg(Fd::try_new(w.server_side[c]).unwrap(), std::ptr::addr_of_mut!(rhdr).cast(), 0, u, fl),
+            "peek" => IoUringSubmissionQueueEntry::new_recvmsg(Fd::try_new(w.server_side[c]).unwrap(), std::ptr::addr_of_mut!(rhdr).cast(), libc::MSG_PEEK, u, fl),
+            _ => panic!("unknown sock step {kind}"),
+        }
+    };
+    let mut panicked = None;
+    let mut got_slot = false;
+    match guarded(|| ring.get_next_sqe_slot()) {
+        Ok(Some(p)) => {
+            unsafe { std::ptr::copy_nonoverlapping(&sqe as *const IoUringSubmissionQueueEntry, p, 1) };
+            got_slot = true;
+        }
+        Ok(None) => {}
+        Err(m) => panicked = Some(m),
+    }
+    let to_submit = guarded(|| ring.flush_submission_queue()).map_or(-1, i64::from);
+    let enter = if to_submit > 0 {
+        match io_uring_enter(ring.fd, to_submit as u32, 0, IoUringEnterFlags::IORING_ENTER_GETEVENTS) {
+            Ok(v) => v as i64,
+            Err(e) => -i64::from(e.code.map_or(1, |c| c.raw())),
+        }
+    } else {
+        0
+    };
+    let mut cqes = Vec::new();
+    let deadline = std::time::Instant::now() + std::time::Duration::from_millis(300);
+    let mut extra = false;
+    loop {
+        while let Ok(Some((cu, res))) = guarded(|| ring.get_next_cqe().map(|c| (c.0.user_data, c.0.res))) {
+            cqes.push(json!({"u":cu,"res":res}));
+            if cqes.len() > 20 {
+                break;
+            }
+        }
+        if extra || std::time::Instant::now() > deadline || cqes.len() > 20 {
+            break;
+        }
+        if !cqes.is_empty() {
+            extra = true;
+        } else {
+            std::thread::sleep(std::time::Duration::from_micros(100));
+        }
+        let _ = io_uring_enter(ring.fd, 0, 0, IoUringEnterFlags::IORING_ENTER_GETEVENTS);
+    }
+    let res = cqes.iter().find(|c| c["u"] == u).and_then(|c| c["res"].as_i64()).unwrap_or(i64::MIN);
+    let payload = match kind {
+        "accept" if res >= 0 => {
+            w.server_side[w.pending.pop_front().unwrap_or(0)] = res as i32;
+            json!({"addrlen": peer_len, "family": u16::from_ne_bytes([peer[0], peer[1]])})
+        }
+        "recv" | "peek" if res >= 0 => {
+            let (nf, same) = w.received_fds(&ctrl, rhdr.msg_controllen);
+            json!({"data": String::from_utf8_lossy(&rbuf[..(res as usize).min(32)]), "fds": nf, "same_file": same})
+        }
+        "connect" => {
+            if res == 0 {
+                w.pending.push_back(c);
+            }
+            Value::Null
+        }
+        _ => Value::Null,
+    };
+    (cqes, payload, got_slot, to_submit, enter, panicked)
+}
+
+/// the same step as direct system calls
+fn sock_direct(w: &mut SockWorld, step: &Value) -> (i64, Value) {
+    let kind = step[0].as_str().unwrap();
+    let c = step[1].as_u64().unwrap_or(0) as usize;
+    let n = step[2].as_u64().unwrap_or(0) as usize;
+    unsafe {
+        match kind {
+            "connect" => {
+                let mut sa: libc::sockaddr_un = std::mem::zeroed();
+                sa.sun_family = libc::AF_UNIX as u16;
+                for (i, b) in w.path.bytes().enumerate() {
+                    sa.sun_path[i] = b as libc::c_char;
+                }
+                let r = ret(i64::from(libc::connect(w.client[c], std::ptr::addr_of!(sa).cast(), (2 + w.path.len() + 1) as u32)));
+                if r == 0 {
+                    w.pending.push_back(c);
+                }
+                (r, Value::Null)
+            }
+            "accept" => {
+                let mut peer = [0u8; 112];
+                let mut len: u32 = 110;
+                let r = ret(i64::from(libc::accept4(w.listener, peer.as_mut_ptr().cast(), &mut len, libc::SOCK_CLOEXEC)));
+                if r >= 0 {
+                    w.server_side[w.pending.pop_front().unwrap_or(0)] = r as i32;
+                    (r, json!({"addrlen": len, "family": u16::from_ne_bytes([peer[0], peer[1]])}))
+                } else {
+                    (r, Value::Null)
+                }
+            }
+            "send" | "sendfd" => {
+                let data = &SDATA[..n.min(SDATA.len()).max(if kind == "sendfd" { 1 } else { 0 })];
+                let mut iov = [libc::iovec { iov_base: data.as_ptr().cast_mut().cast(), iov_len: data.len() }];
+                let mut hdr: libc::msghdr = std::mem::zeroed();
+                hdr.msg_iov = iov.as_mut_ptr();
+                hdr.msg_iovlen = 1;
+                let mut ctrl = [0u8; 24];
+                if kind == "sendfd" {
+                    ctrl[..8].copy_from_slice(&20usize.to_ne_bytes());
+                    ctrl[8..12].copy_from_slice(&libc::SOL_SOCKET.to_ne_bytes());
+                    ctrl[12..16].copy_from_slice(&libc::SCM_RIGHTS.to_ne_bytes());
+                    ctrl[16..20].copy_from_slice(&w.file.to_ne_bytes());
+                    hdr.msg_control = ctrl.as_mut_ptr().cast();
+                    hdr.msg_controllen = 24;
+                }
+                (ret(libc::sendmsg(w.client[c], &hdr, libc::MSG_NOSIGNAL) as i64), Value::Null)
+            }
+            "recv" | "peek" => {
+                let mut rbuf = [0u8; 32];
+                let mut ctrl = [0u8; 64];
+                let mut iov = [libc::iovec { iov_base: rbuf.as_mut_ptr().cast(), iov_len: n.min(32) }];
+                let mut hdr: libc::msghdr = std::mem::zeroed();
+                hdr.msg_iov = iov.as_mut_ptr();
+                hdr.msg_iovlen = 1;
+                hdr.msg_control = ctrl.as_mut_ptr().cast();
+                hdr.msg_controllen = ctrl.len();
+                let r = ret(libc::recvmsg(w.server_side[c], &mut hdr, libc::MSG_DONTWAIT | if kind == "peek" { libc::MSG_PEEK } else { 0 }) as i64);
+                if r >= 0 {
+                    let (nf, same) = w.received_fds(&ctrl, hdr.msg_controllen);
+                    (r, json!({"data": String::from_utf8_lossy(&rbuf[..(r as usize).min(32)]), "fds": nf, "same_file": same}))
+                } else {
+                    (r, Value::Null)
+                }
+            }
+            _ => panic!("unknown sock step {kind}"),
+        }
+    }
+}
+
+fn run_sock(scripts: &str, root: &str, entries: u32, flagbits: u32, out: &mut Out) {
+    let mut ring: IoUring = match setup_io_uring(entries, param_flags(flagbits), 0, 100) {
+        Ok(r) => r,
+        Err(e) => {
+            out.ev(&json!({"ev":"setup_failed","entries":entries,"flags":flagbits,"err":format!("{e}")}));
+            return;
+        }
+    };
+    out.ev(&json!({"ev":"ring","entries":entries,"flags":flagbits}));
+    let mut u: u64 = 5000;
+    let f = std::io::BufReader::new(std::fs::File::open(scripts).unwrap());
+    for line in f.lines() {
+        let line = line.unwrap();
+        if line.trim().is_empty() {
+            continue;
+        }
+        let sc: Value = serde_json::from_str(&line).unwrap();
+        let run = sc["run"].as_u64().unwrap();
+        let mut a = SockWorld::new(root, "A", run);
+        let mut b = SockWorld::new(root, "B", run);
+        for (k, step) in sc["steps"].as_array().unwrap().iter().enumerate() {
+            u += 1;
+            let (cqes, pa, got_slot, to_submit, enter, panicked) = sock_ring(&mut ring, &mut a, step, u);
+            let (rb, pb) = sock_direct(&mut b, step);
+            let op = match step[0].as_str().unwrap() {
+                "send" | "sendfd" => "sendmsg",
+                "recv" | "peek" => "recvmsg",
+                x => x,
+            };
+            let rec = json!({"ev":"batch","b":k,"run":run,"n":1,"step":step,"ops":[{"op":op,"step":step}],
+                "subs":[{"u":u,"op":op,"link":false,"req":0,"got_slot":got_slot}],"filled":i32::from(got_slot),"to_submit":to_submit,"enter":enter,
+                "cqes":cqes,"direct":[{"u":u,"res":rb,"ran":true}],"payload_same":[pa == pb],"side_same":true,"panic":panicked.is_some(),
+                "payload":{"a":[pa],"b":[pb]}});
+            out.ev(&rec);
+            out.flush();
+            if panicked.is_some() {
+                break;
+            }
+            // the script was generated so that no step blocks; that only holds while both worlds follow it
+            let ra = rec["cqes"].as_array().unwrap().iter().find(|c| c["u"] == u).and_then(|c| c["res"].as_i64()).unwrap_or(i64::MIN);
+            if (ra >= 0) != (rb >= 0) || (ra < 0 && ra != rb) {
+                break;
+            }
+        }
+        a.close_all();
+        b.close_all();
+    }
+    drop(ring);
+}
+
 fn mark(s: &str) {
     unsafe { libc::write(-1, s.as_ptr().cast(), s.len()) };
 }
@@ -518,6 +817,12 @@ fn main() {
             // the driver's own bookkeeping can fail once the code under test has gone wrong badly enough
             // (e.g. descriptors leak until EMFILE): keep what was recorded and say so
             let r = guarded(|| run(&a[2], &a[3], a[4].parse().unwrap(), a[5].parse().unwrap(), &mut out));
+            if let Err(m) = r {
+                out.ev(&json!({"ev":"aborted","why":m}));
+            }
+        }
+        "sock" => {
+            let r = guarded(|| run_sock(&a[2], &a[3], a[4].parse().unwrap(), a[5].parse().unwrap(), &mut out));
             if let Err(m) = r {
                 out.ev(&json!({"ev":"aborted","why":m}));
             }
